@@ -34,6 +34,8 @@ func c10(r *core.Run) {
 	r.Rule("B1", "before-values are what get served (shared with C11.K2): the value a badgerstore write transaction caches is dead or refreshed by every mutation; the change handler diffs the reported before-value, so a stale one yields events relative to a state the client no longer holds", 1)
 	r.Rule("D2", "a changed value is seen as changed: Value.Equal - the only comparison the model and collection diffs use - compares encoded bytes and reference ids; it never decodes the two sides into interface{} (numbers become float64) nor compares with reflect.DeepEqual", 1)
 	c10EqualityOnBytes(r, "D2")
+	r.Rule("V1", "references in served values stay decodable (shared with C17.G2): IsValidRID - the test the store's value parser applies to every reference when the change handler diffs before and after - accepts exactly 33..126 with '?' singled out; a narrower class (\"~\" rejected) makes the diff of any value holding such a reference fail, and the change is served by get but never announced", 1)
+	c17CharClass(r, "V1", map[string]bool{"IsValidRID": true})
 	r.Rule("D1", "model diff: the delete action is stored exactly on the not-present edge of the lookup in the new map, a key is reported only where it is new or Value.Equal is false, and the resulting map is what ChangeEvent receives", 3)
 
 	c11CacheCoherence(r, "B1", "store/badgerstore")
